@@ -36,6 +36,7 @@ package middleware
 //@ func withTrace
 //@   params ctx fullMethod opts
 //@   property C19
+//@   locals sampler:middleware.Sampler md:metadata.MD ok:bool traceID:string discarded:bool discard:*regexp.Regexp spanID:string parentID:string
 //@   requires ctx != nil && opts != nil && envReadable
 //@   requires middleware.TraceIDKey != middleware.TraceSpanIDKey && middleware.TraceIDKey != middleware.TraceParentSpanIDKey && middleware.TraceSpanIDKey != middleware.TraceParentSpanIDKey
 //@   let md0 = ptr(metadata.MD, mdOf(ctx))
@@ -45,6 +46,8 @@ package middleware
 //@   ensures* parent: inT != "" && inP != "" ==> shas(result, middleware.TraceParentSpanIDKey) && sval(result, middleware.TraceParentSpanIDKey) == inP
 //@   ensures* span: inT != "" ==> shas(result, middleware.TraceSpanIDKey) && sval(result, middleware.TraceSpanIDKey) == lastSpanID
 //@   ensures* unsampled: inT == "" && (sampleCalls == old(sampleCalls) || !lastSample) ==> result == ctx
+//@   ensures* discarded: inT == "" && (exists i int :: 0 <= i && i < len(old(opts.discards)) && reMatches(old(opts.discards[i]), fullMethod)) ==> result == ctx && sampleCalls == old(sampleCalls)
+//@   loop 1 invariant none.matched: !discarded && ranged(1) == old(opts.discards) && (forall j int :: 0 <= j && j <= rangeidx(1) ==> !reMatches(ranged(1)[j], fullMethod))
 
 //@ func setTrace
 //@   params ctx
